@@ -1521,7 +1521,10 @@ def _check_fqp_inv_loop(rep, impl, curve, deg_, K, M, patterns):
                 ctxm = world.patched(M, prime_field_inv=inv_stub_ring)
             with ctxm:
                 cut = loopcut.cut(K.inv, rewriter=lambda m_: world._Rewriter().visit(m_))
-                st = {"self": me, "lm": list(lm), "hm": list(hm), "low": list(low), "high": list(high)}
+                # locals the prologue defines besides the four loop-carried lists (hoisted constants etc.) come from the real prologue
+                k0, st0 = cut["init"](me)
+                st = dict(st0) if k0 == "state" else {}
+                st.update({"self": me, "lm": list(lm), "hm": list(hm), "low": list(low), "high": list(high)})
                 c = cut["cond"](**st)
                 if not c:
                     raise core.Unsupported("loop condition false although deg(low) = %d" % dl)
